@@ -80,8 +80,8 @@ def gen_cfg(ctx, fam, thorough, devs):
         "search": dict(ns="{1}", search="G_SearchSetT" if thorough else "G_SearchSet",
                        ndots="{0, 1, 2}", dots="{0, 1}", call='{"lookup", "search"}',
                        toolong="G_TooLong", mode='{"mock"}', usevc="{FALSE}", tcponly="G_None",
-                       tmo="{5}", outs='{"Data", "NoData", "NX", "SF", "Err"}' if thorough else '{"Data", "NoData", "NX", "Err"}',
-                       tcpouts='{"Data"}', lats="{1, 9999}" if thorough else "{1}"),
+                       tmo="{5}", outs='{"Data", "NoData", "NX", "Err"}',
+                       tcpouts='{"Data"}', lats="{1}"),
     }[fam]
     text = """CONSTANTS
   Fam = "%s"
